@@ -1568,16 +1568,20 @@ static WBXMLError wbxml_fill_header(WBXMLEncoder *encoder, WBXMLBuffer *header)
                                               &public_id_index,
                                               &added))
                 {
+                    /* 'elt' owns 'pid': destroying the element frees it */
                     wbxml_strtbl_element_destroy(elt);
-                    if (pid) wbxml_buffer_destroy(pid);
                     return WBXML_ERROR_NOT_ENOUGH_MEMORY;
                 }
 
                 /* "added" means that pid was consumed by encoder.
                  * So never free pid if added is TRUE.
                  */
-                if (!added)
+                if (!added) {
+                    /* The string was already in the String Table: 'elt' owns
+                     * 'pid', so destroying the element frees it too */
                     wbxml_strtbl_element_destroy(elt);
+                    pid = NULL;
+                }
 
                 strstbl_len = encoder->strstbl_len;
             }
